@@ -1114,6 +1114,35 @@ func phiValuesUnder(bs *bsetEngine, fn *ssa.Function, isSym func(ssa.Value) bool
 	for i := range st.from {
 		st.from[i] = -2
 	}
+	// blockRules[k].acceptsLines for a k that evaluates: read from the rule table's literal
+	tab := blockRulesTable(bs.p)
+	st.symVal = func(v ssa.Value) (int64, bool) {
+		f, ok := v.(*ssa.Field)
+		if !ok {
+			return 0, false
+		}
+		lk, ok := f.X.(*ssa.Lookup)
+		if !ok || lk.CommaOk {
+			return 0, false
+		}
+		ld, ok := lk.X.(*ssa.UnOp)
+		if !ok || ld.Op != token.MUL {
+			return 0, false
+		}
+		g, ok := ld.X.(*ssa.Global)
+		if !ok || g.Name() != "blockRules" {
+			return 0, false
+		}
+		stt, ok := f.X.Type().Underlying().(*types.Struct)
+		if !ok || stt.Field(f.Field).Name() != "acceptsLines" {
+			return 0, false
+		}
+		k, ok := st.eval(lk.Index)
+		if !ok {
+			return 0, false
+		}
+		return b2i(tab[k].acceptsLines), true
+	}
 	visits := make([]int, len(fn.Blocks))
 	var dfs func(b *ssa.BasicBlock)
 	dfs = func(b *ssa.BasicBlock) {
